@@ -201,3 +201,27 @@ def check(ctx, run):
         if problems:
             run.fail(Finding("C01.R4", pn.qualname, "; ".join(problems), "compute_pnl must simulate as requested and evaluate compute_pl on the same derivative and hedge",
                              file=str(prog.modules[pn.module].path), line=pn.node.lineno))
+
+
+def precision_rule(ctx, run):
+    """R5: the cost rates (Python floats) enter the cost term at the precision of the price data: they are not first packed into a tensor of
+    the global default dtype (torch.tensor(cost) without dtype rounds 1e-3 to float32 before `.to(float64 spot)`) - a necessary condition
+    of the identity in float64."""
+    from ..precision import lossy
+    prog, interp = ctx.prog, ctx.interp
+    run.require("C01.R5", 1)
+    fi = E.functional(ctx, "pl")
+    res = interp.explore(fi, [], dict(spot=W.tensor("spot"), unit=W.tensor("unit"), cost=Sym("cost", ("list",)), payoff=W.tensor("payoff")), max_paths=20)
+    bad = lossy(res, {"cost"})
+    run.oblige("C01.R5", "pl: cost rates are not rounded to the default dtype before they meet the prices", not bad, "; ".join(bad) or "cost tensor created in the dtype of the prices")
+    if bad:
+        run.fail(Finding("C01.R5", fi.qualname, "; ".join(bad), "cost rates are rounded to float32 before float64 arithmetic: the float64 P&L deviates from the wealth identity by ~6e-8 of the cost term",
+                         file=str(prog.modules[fi.module].path), line=fi.node.lineno, witness="pl(float64 spot/unit, cost=[0.001]) = 0.49749999988 instead of 0.4975"))
+
+
+_check_before_precision = check
+
+
+def check(ctx, run):  # noqa: F811
+    _check_before_precision(ctx, run)
+    precision_rule(ctx, run)
